@@ -78,3 +78,34 @@ func partName() string {
 	}
 	return "seal"
 }
+
+var polluter cipher.AEAD
+
+// pollute runs a Seal and an Open under an unrelated key right before the call under test, so that whatever the
+// previous call left behind in vector registers or other hidden per-process state (hash-key powers, counters, masks)
+// belongs to a *different* key: a call that relies on leftovers of its predecessor then computes with foreign values.
+func pollute() {
+	if polluter == nil {
+		a, _, err := newAEAD(keyByName("polluter"), 128, 16)
+		if err != nil {
+			a, _, err = newAEAD(keyByName("polluter"), 12, 16)
+			if err != nil {
+				return
+			}
+		}
+		polluter = a
+	}
+	n := make([]byte, polluter.NonceSize())
+	for i := range n {
+		n[i] = byte(0x5a + i)
+	}
+	ct := polluter.Seal(nil, n, polluterPT[:], polluterPT[:200])
+	polluter.Open(nil, n, ct, polluterPT[:200])
+}
+
+var polluterPT = func() (b [300]byte) {
+	for i := range b {
+		b[i] = byte(i*31 + 7)
+	}
+	return
+}()
